@@ -111,16 +111,34 @@ func Open(dir string, opts ...walOpt) (*WAL, error) {
 		return nil, err
 	}
 
+	newState := state{
+		segments: &immutable.SortedMap[uint64, segmentState]{},
+	}
+
+	// If we fail from here on, don't leave the meta store (and the file lock it
+	// holds) or any segment files we already opened behind: the caller has no
+	// handle to release them and a later Open of the same dir would block.
+	opened := false
+	defer func() {
+		if opened {
+			return
+		}
+		it := newState.segments.Iterator()
+		for !it.Done() {
+			_, seg, _ := it.Next()
+			if seg.r != nil {
+				seg.r.Close()
+			}
+		}
+		w.metaDB.Close()
+	}()
+
 	// Load or create metaDB
 	persisted, err := w.metaDB.Load(w.dir)
 	if err != nil {
 		return nil, err
 	}
-
-	newState := state{
-		segments:      &immutable.SortedMap[uint64, segmentState]{},
-		nextSegmentID: persisted.NextSegmentID,
-	}
+	newState.nextSegmentID = persisted.NextSegmentID
 
 	// Get the set of all persisted segments so we can prune it down to just the
 	// unused ones as we go.
@@ -263,6 +281,7 @@ func Open(dir string, opts ...walOpt) (*WAL, error) {
 	// Start the rotation routine
 	go w.runRotate()
 
+	opened = true
 	return w, nil
 }
 
